@@ -14,6 +14,7 @@ import (
 	"fmt"
 	"math/rand"
 	"runtime"
+	"strings"
 	"sync"
 
 	"github.com/willabides/rjson"
@@ -64,6 +65,19 @@ func concInputs(c *genCtx) []concInput {
 	for _, s := range []string{"1.00000000000000011102230246251565404236316680908203125", "9007199254740993", "1e23", "8.41e21", "2.4703282292062328e-324",
 		"1.7976931348623158e308", "123456789012345678901234567890e-10", "18446744073709551615", "-9223372036854775808", "0.1", "1e400"} {
 		add("num", []byte(s))
+	}
+	// every conversion path of the float reader, including literals longer than the 800-digit array of the decimal
+	// fallback (near-midpoint, so that they do reach it), several times each so that they meet in many windows
+	half := "2.4703282292062327208828439643411068618252990130716238221279284125033775363510437593264991818081799618989828234772285886546332835517796989819938739800539093906315035659515570226392290858392449105184435931802849936536152500319370457678249219365623669863658480757001585769269903706311928279558551332927834338409351978015531246597263579574622766465272827220056374006485499977096599470454020828166226237857393450736339007967761930577506740176324673600968951340535537458516661134223766678604162159680461914467291840300530057530849048765391711386591646239524912623653881879636239373280423891018672348497668235089863388587925628302755995657524455507255189313690836254779186948667994968324049705821028513185451396213837722826145437693412532098591327667236328125"
+	for rep := 0; rep < 4; rep++ {
+		add("num", []byte(half+"e-324"))
+		add("num", []byte(half+strings.Repeat("0", 70)+"e-324"))
+		add("num", []byte(half+strings.Repeat("0", 70)+"1e-324"))
+		add("num", []byte("100000000000000011102230246251565404236316680908203125"+strings.Repeat("0", 760)+"e-813"))
+		add("num", []byte("1"+strings.Repeat("0", 900)+"1e-901"))
+		add("num", []byte("0."+strings.Repeat("0", 400)+"17976931348623157"+strings.Repeat("9", 500)+"e709"))
+		add("str", []byte(`"`+strings.Repeat(`x\n\u00e9`, 300)+`"`))
+		add("doc", []byte(`{"long\tkey`+strings.Repeat("k", 40)+`":["`+strings.Repeat(`\ud83d\ude00y`, 8)+`",1.00000000000000011102230246251565404236316680908203125]}`))
 	}
 	for _, s := range []string{"true", "false", "null", " nul", "[", "{", ",", ":", " \n\t", "", "x"} {
 		add("tok", []byte(s))
